@@ -75,6 +75,19 @@ FUNCTIONS = {
   ),
 }
 
+FUNCTIONS.update({
+  # a new singleton pool holds no sink and no reference: the at-most-one invariant starts from "none created, none dropped"
+  'SingletonPoolSink.__init__': dict(
+    cls='SingletonPoolSink', params={'sink_provider': 'NextProvider', 'sink_properties': 'any', 'global_properties': 'any'}, returns='none',
+    requires=['self.g_creates == self.g_drops'],
+    ensures=['self._next is None', 'self._ref_count == 0', 'self._sink_provider == sink_provider', 'self._properties == global_properties',
+             '0 <= self.g_creates - self.g_drops and self.g_creates - self.g_drops <= 1',
+             '(self._next is not None) == (self.g_creates - self.g_drops == 1)'],
+    modifies=['*'], allocates=True, drop=['endpoint', 'endpoint_source'],
+    props=['C16'],
+  ),
+})
+
 EXTERNS = {}
 
 # ---------------------------------------------------------------------------- watermark pool (C07)
